@@ -47,6 +47,22 @@ type Live struct {
 	// Prefix is the length of the garbage prefix (C06; 0 = pure noise stream when Sent is empty).
 	Prefix int    `json:"prefix,omitempty"`
 	Noise  string `json:"noise,omitempty"` // kind of noise generated (informational)
+	// Resets (level "reader" only): chunk indices before which Reader.Reset() is called; the
+	// decoder must then behave like a fresh one (time restarts at zero).
+	Resets []int `json:"resets,omitempty"`
+	// Pre (level "listen" only): an earlier ListenTo on the same port with these options,
+	// stopped or not before the observed listener is attached.
+	Pre        *LiveOpts `json:"pre,omitempty"`
+	PreStopped bool      `json:"pre_stopped,omitempty"`
+}
+
+func (s *Live) resetBefore(i int) bool {
+	for _, r := range s.Resets {
+		if r == i {
+			return true
+		}
+	}
+	return false
 }
 
 type delivered struct {
@@ -112,6 +128,9 @@ func (s *Live) observe(env *core.Env, opts LiveOpts) (obs liveObs) {
 			})
 			for i, c := range chunks {
 				cur = i
+				if s.resetBefore(i) {
+					rd.Reset()
+				}
 				rd.EachMessage(c, s.Deltas[i])
 			}
 		}()
@@ -143,6 +162,26 @@ func (s *Live) observe(env *core.Env, opts LiveOpts) (obs liveObs) {
 			o = append(o, midi.UseSysEx())
 		}
 		o = append(o, midi.SysExBufferSize(opts.BufSize), midi.HandleError(func(error) { obs.errs++ }))
+		if s.Pre != nil {
+			var po []midi.Option
+			if s.Pre.ActiveSense {
+				po = append(po, midi.UseActiveSense())
+			}
+			if s.Pre.TimeCode {
+				po = append(po, midi.UseTimeCode())
+			}
+			if s.Pre.SysEx {
+				po = append(po, midi.UseSysEx())
+			}
+			po = append(po, midi.SysExBufferSize(s.Pre.BufSize))
+			pstop, perr := midi.ListenTo(in, func(midi.Message, int32) {}, po...)
+			if perr != nil {
+				panic(perr)
+			}
+			if s.PreStopped {
+				pstop()
+			}
+		}
 		stop, err := midi.ListenTo(in, func(m midi.Message, ts int32) {
 			obs.got = append(obs.got, delivered{bytes: append([]byte{}, m...), alias: m, isNil: m == nil, ts: ts, chunk: cur})
 		}, o...)
@@ -275,6 +314,9 @@ func (s *Live) model(opts LiveOpts, st *core.Stats) []ref.RxMsg {
 	for i, n := range s.Chunks {
 		c := s.Stream[pos : pos+n]
 		pos += n
+		if s.Level == "reader" && s.resetBefore(i) {
+			rx = &ref.Rx{SysEx: opts.SysEx, BufSize: int(opts.BufSize)}
+		}
 		if st != nil {
 			// feed byte-wise to record (state, class, class) transitions
 			for j, b := range c {
@@ -343,6 +385,7 @@ func (s *Live) clone() *Live {
 	c.Chunks = append([]int{}, s.Chunks...)
 	c.Deltas = append([]int32{}, s.Deltas...)
 	c.Sent = append([]SentMsg{}, s.Sent...)
+	c.Resets = append([]int{}, s.Resets...)
 	return &c
 }
 
@@ -452,8 +495,22 @@ func (s *Live) Shrinks(try func(core.Scenario) bool) bool {
 			}
 		}
 	}
+	if len(s.Resets) > 0 {
+		c := s.clone()
+		c.Resets = nil
+		if try(c) {
+			return true
+		}
+	}
+	if s.Pre != nil {
+		c := s.clone()
+		c.Pre = nil
+		if try(c) {
+			return true
+		}
+	}
 	// 5. simpler options / level
-	if s.Level == "listen" {
+	if s.Level == "listen" && len(s.Resets) == 0 {
 		c := s.clone()
 		c.Level = "reader"
 		if try(c) {
